@@ -51,6 +51,32 @@ def rule_maps(ctx):
         m = {f.name: f for f in cls.body if isinstance(f, ast.FunctionDef)}
         ctx.anchor({'forward', 'backward', 'derivative_chain'} <= set(m),
                    f'{cls.name}: forward/backward/derivative_chain')
+        # the three functions are pure functions of their arguments: no state
+        # on the map object may be written or read (a remembered value of an
+        # earlier call makes derivative_chain(g, x) depend on call history)
+        impure = []
+        for fn_ in (m['forward'], m['backward'], m['derivative_chain']):
+            for n_ in ast.walk(fn_):
+                if isinstance(n_, ast.Attribute) and isinstance(
+                        n_.value, ast.Name) and n_.value.id == 'self' and \
+                        n_.attr not in ('forward', 'backward',
+                                        'derivative_chain'):
+                    impure.append((fn_, n_))
+                if isinstance(n_, ast.Call) and ast.unparse(n_.func) in (
+                        'getattr', 'setattr', 'hasattr') and n_.args and \
+                        ast.unparse(n_.args[0]) == 'self':
+                    impure.append((fn_, n_))
+                if isinstance(n_, (ast.Global, ast.Nonlocal)):
+                    impure.append((fn_, n_))
+        ctx.check('C14.M1.pure', f'{cls.name}: forward/backward/'
+                  'derivative_chain use only their arguments', not impure,
+                  f'`{ast.unparse(impure[0][1]) if impure else ""}` in '
+                  f'{impure[0][0].name if impure else ""}: state kept on the '
+                  'map object makes the result depend on earlier calls (the '
+                  'chain rule is then taken at another point than `mapped`)',
+                  ctx.where(mod, impure[0][1] if impure else cls))
+        if impure:
+            continue
         fpar = au.params(m['forward'])[1]
         bpar = au.params(m['backward'])[1]
 
